@@ -47,7 +47,9 @@ CONTAINERS = ["ndarray", "list", "tuple_rows", "DataFrame", "Series", "flat"]
 def decode(data):
     fdp = atheris.FuzzedDataProvider(data)
     name = SCORERS[fdp.ConsumeIntInRange(0, len(SCORERS) - 1)]
-    n = fdp.ConsumeIntInRange(5, 9)
+    # mostly tiny series; one time in four a series whose length is next to the int8 range (positions 125..131: dtype extremes of
+    # the narrow types are then ordinary positions)
+    n = fdp.ConsumeIntInRange(5, 9) if fdp.ConsumeIntInRange(0, 3) else fdp.ConsumeIntInRange(125, 131)
     p = fdp.ConsumeIntInRange(1, 2)
     k = c13.width(name)
     dtype = DTYPES[fdp.ConsumeIntInRange(0, len(DTYPES) - 1)]
